@@ -145,6 +145,15 @@ pub mod ext {
 //@ item actors/market/src/ext.rs IsControllingAddressReturn
 //@ item actors/market/src/ext.rs IsControllingAddressParam
     }
+    pub mod verifreg {
+        use super::super::*;
+        pub type AllocationID = u64;
+        pub type ClaimID = u64;
+//@ item actors/market/src/ext.rs AllocationRequest
+//@ item actors/market/src/ext.rs ClaimExtensionRequest
+//@ item actors/market/src/ext.rs AllocationRequests
+//@ item actors/market/src/ext.rs AllocationsResponse
+    }
     pub mod datacap {
         pub const BALANCE_OF_METHOD: u64 = 3261979605;
         pub const TRANSFER_FROM_METHOD: u64 = 3621052141;
@@ -170,3 +179,82 @@ pub fn vx_enumerate<T>(v: &Vec<T>) -> (r: Vec<(usize, &T)>)
 pub fn vx_into_enumerate<T>(v: Vec<T>) -> (r: Vec<(usize, T)>)
     ensures r@.len() == v@.len(), forall|i: int| 0 <= i < v@.len() ==> (#[trigger] r@[i]).0 == i && r@[i].1 == v@[i]
 { v.into_iter().enumerate().collect() }
+
+// ======================================================================================================================
+// selection phase (the second loop of publish_storage_deals) and the datacap requests
+// ======================================================================================================================
+// ---- std::collections::BTreeMap: prelude/btreemap.rs has the type, its view and `get`; this unit also needs new / insert /
+// iter and `entry(k).or_default()` (as `vx_at`, substituted by vx; same idea as prelude/market_settle_assumed.rs).
+impl<K, V> BTreeMap<K, V> {
+    #[verifier::external_body]
+    pub fn new() -> (r: Self) ensures r.view() == Map::<K, V>::empty() { unimplemented!() }
+    #[verifier::external_body]
+    pub fn insert(&mut self, k: K, v: V) -> (r: Option<V>)
+        ensures final(self).view() == old(self).view().insert(k, v)
+    { unimplemented!() }
+    /// `entry(k).or_default()`: a mutable reference to the value stored under `k`, a default value being inserted first when there is none
+    #[verifier::external_body]
+    pub fn vx_at(&mut self, k: K) -> (r: &mut V) where V: Default
+        ensures final(self).view() == old(self).view().insert(k, *final(r)), final(self).view().dom() == old(self).view().dom().insert(k),
+    { unimplemented!() }
+    /// `iter()`: every entry exactly once (ascending key order), materialised so that a loop can index it
+    #[verifier::external_body]
+    pub fn iter(&self) -> (r: Vec<(&K, &V)>)
+        ensures
+            forall|i: int| 0 <= i < r@.len() ==> self.view().dom().contains(*(#[trigger] r@[i]).0) && *r@[i].1 == self.view()[*r@[i].0],
+            forall|i: int, j: int| 0 <= i < j < r@.len() ==> *r@[i].0 != *r@[j].0,
+    { unimplemented!() }
+}
+// ---- std::collections::BTreeSet (membership only) --------------------------------------------------------------------------
+#[verifier::external_body]
+#[verifier::reject_recursive_types(T)]
+pub struct BTreeSet<T> { p: PhantomData<T> }
+impl<T> BTreeSet<T> {
+    pub uninterp spec fn view(&self) -> vstd::set::Set<T>;
+    #[verifier::external_body]
+    pub fn new() -> (r: Self) ensures r@ == vstd::set::Set::<T>::empty() { unimplemented!() }
+    #[verifier::external_body]
+    pub fn contains(&self, x: &T) -> (r: bool) ensures r == self@.contains(*x) { unimplemented!() }
+    #[verifier::external_body]
+    pub fn insert(&mut self, x: T) -> (r: bool) ensures final(self)@ == old(self)@.insert(x), r == !old(self)@.contains(x) { unimplemented!() }
+}
+// ---- frc46_token parameter / return types (external crate): plain records ---------------------------------------------------
+pub struct TransferFromParams { pub from: Address, pub to: Address, pub amount: TokenAmount, pub operator_data: RawBytes }
+pub struct TransferFromReturn { pub from_balance: TokenAmount, pub to_balance: TokenAmount, pub allowance: TokenAmount, pub recipient_data: RawBytes }
+pub type BalanceReturn = TokenAmount;
+impl IpldBlock {
+    /// fvm_ipld_encoding IpldBlock::deserialize: decoding of a returned block (same opaque decoding as cbor.rs deserialize_block)
+    #[verifier::external_body]
+    pub fn deserialize<T>(&self) -> (r: Result<T, ActorError>)
+        ensures r.is_ok() == deser_ok::<T>(Some(*self)), r.is_ok() ==> r->Ok_0 == deser_spec::<T>(Some(*self))
+    { unimplemented!() }
+}
+/// fil_actors_runtime::cbor::deserialize: decoding of a byte string — opaque, deterministic
+pub uninterp spec fn raw_deser_spec<T>(b: RawBytes) -> T;
+#[verifier::external_body]
+pub fn deserialize<T>(bytes: &RawBytes, desc: &str) -> (r: Result<T, ActorError>)
+    ensures r.is_ok() ==> r->Ok_0 == raw_deser_spec::<T>(*bytes)
+{ unimplemented!() }
+// ---- lib.rs datacap_transfer_request (`alloc_reqs.iter().map(|it| it.size.0).sum()` + serialize): builds the TransferFrom
+// parameters for one client — a pure function (it can only fail in `serialize`); nothing about its result is used.
+#[verifier::external_body]
+pub fn datacap_transfer_request(client: &Address, alloc_reqs: Vec<ext::verifreg::AllocationRequest>) -> (r: Result<TransferFromParams, ActorError>)
+{ unimplemented!() }
+/// `cids_and_reqs.iter().map(|(_, req)| req.clone()).collect()`: the requests of the pairs, in order (the extractor strips
+/// `derive(Clone)` from AllocationRequest, so the expression itself cannot be the body)
+#[verifier::external_body]
+pub fn vx_reqs_of(cids_and_reqs: &Vec<(Cid, ext::verifreg::AllocationRequest)>) -> (r: Vec<ext::verifreg::AllocationRequest>)
+    ensures r@.len() == cids_and_reqs@.len()
+{ unimplemented!() }
+/// R17 target: number of pairs a `zip` visits (same text as prelude/market_activate_assumed.rs)
+pub fn vx_zip_len(a: usize, b: usize) -> (r: usize) ensures r == (if a <= b { a } else { b }) { if a <= b { a } else { b } }
+// ---- emit.rs deal_published: builds one event and calls rt.emit_event — one actor event, nothing else -----------------------
+pub mod emit {
+    use super::*;
+    #[verifier::external_body]
+    pub fn deal_published(rt: &mut Rt, client: ActorID, provider: ActorID, deal_id: DealID) -> (r: Result<(), ActorError>)
+        ensures r.is_ok() ==> *final(rt) == (Rt { events: Ghost(old(rt).events@ + 1), ..*old(rt) }), r.is_err() ==> *final(rt) == *old(rt)
+    { unimplemented!() }
+}
+// ---- types.rs MARKET_NOTIFY_DEAL_METHOD = frc42 method_hash!("MarketNotifyDeal") (see the note on ext above) ------------------
+pub const MARKET_NOTIFY_DEAL_METHOD: u64 = 4186741094;
